@@ -399,19 +399,19 @@ def _op_str(op, tree=None, before=()):
     return "pred %s" % _fh_str(op[1])
 
 
-def to_line(c):
+def _to_line_tree(c):
     ops = c["ops"]
     tape = None
     if c["tree"][0] == "O":
         if _case_key(c) not in _TAPES:
-            run_real(c)
+            _run_real_tree(c)
         tape = _TAPES[_case_key(c)]
         if tape is None:
             return None   # the real algorithm failed or produced non-finite weights: nothing to replay in the model
     return re.sub(r"\s+", " ", "C09 run %s | %s" % (_node_str(c["tree"], tape), " ".join(_op_str(o, c["tree"], ops[:j]) for j, o in enumerate(ops)))).strip()
 
 
-def run_real(c):
+def _run_real_tree(c):
     try:
         obj = build_real(c["tree"])
     except Exception as e:  # constructors do not validate; anything here is a harness problem
@@ -958,7 +958,7 @@ def _real_obs(node, ops):
     return outs, logs
 
 
-def oracle(c, real_out):
+def _oracle_tree(c, real_out):
     if real_out.startswith("E:construct"):
         return []
     outs, logs = parse_out(real_out)
@@ -1000,14 +1000,14 @@ def oracle(c, real_out):
     return out
 
 
-def nontrivial(c, real_out):
+def _nontrivial_tree(c, real_out):
     if c["tree"][0] == "R" or " # " not in real_out:
         return False
     outs, _ = parse_out(real_out)
     return any(isinstance(o, list) and o for o in outs)
 
 
-def features(c, real_out):
+def _features_tree(c, real_out):
     f = ["root=" + c["tree"][0], "depth=%d" % _depth(c["tree"]), "calls=%d" % len(c["ops"])]
     if any(o[0] == "upd" for o in c["ops"]):
         f.append("with-update")
@@ -1374,10 +1374,11 @@ def gen_cases(tier, rng):
         dtu = rng.choice(_DTS) if rng.random() < 0.15 else dt
         xdt = rng.choice(_DTS) if rng.random() < 0.35 else None
         cases.append(_with_dtypes({"tree": t, "ops": ops}, dt, dtu, xdt))
+    cases += _muxpi_cases(tier, rng)
     return cases
 
 
-def shrink(c):
+def _shrink_tree(c):
     t, ops = c["tree"], c["ops"]
     # fewer calls
     for i in range(len(ops) - 1, 0, -1):
@@ -1415,3 +1416,106 @@ def shrink(c):
             o2 = list(ops)
             o2[i] = [op[0], op[1][:-1], op[2]] + list(op[3:])
             yield {"tree": t, "ops": o2}
+
+
+# ----------------------------------------------------------------------------- prediction intervals through the multiplexer
+# "A multiplexer behaves exactly like its selected member" also for predict(return_pred_int=True, alpha=...): the
+# multiplexer hands both arguments on.  Real code only (to_line = None): the member-level semantics of the two arguments
+# are modelled in lean/SkVerif/Model/PredInt.lean and checked by C10; here the multiplexer around an exact interval probe
+# (harness/probes.py, built on /repo's real base classes) is compared, call by call, with that probe on its own.
+def _muxpi_cases(tier, rng):
+    import predint as PI
+    out = []
+    for c in PI.gen_cases(tier, rng):
+        if c["core"].startswith("probe") and c["mode"] == "o":
+            # after an update_predict that ran, a non-window forecaster (the multiplexer) holds the splitter's horizon,
+            # a window forecaster keeps its own (documented observation, DESIGN 11.4): ask explicitly from there on
+            ops, ran = [], False
+            for op in c["ops"]:
+                op = list(op)
+                if ran and op[0] == "predi" and op[1] is None:
+                    op[1] = ["r", [1, 2]]
+                if ran and op[0] == "upsi" and op[2] is None:
+                    op[2] = ["r", [1, 2]]
+                if op[0] == "upi" and not op[4]:
+                    ran = True
+                ops.append(op)
+            out.append({"kind": "muxpi", "w": int(c["core"].split(":")[1]), "ops": ops, "pos": len(out) % 3})
+    return out
+
+
+def _muxpi_build(c, bare):
+    from sktime.forecasting.naive import NaiveForecaster
+    from sktime.forecasting.trend import PolynomialTrendForecaster
+    from sktime.forecasting.compose import MultiplexForecaster
+    from probes import IntervalProbe
+    if bare:
+        return IntervalProbe(window_length=c["w"])
+    ms = [("n", NaiveForecaster(strategy="mean")), ("t", PolynomialTrendForecaster())]
+    ms.insert(c.get("pos", 0) % 3, ("sel", IntervalProbe(window_length=c["w"])))
+    return MultiplexForecaster(ms, selected_forecaster="sel")
+
+
+def _muxpi_run(c):
+    import warnings
+    import predint as PI
+    import fcmachine as M
+    warnings.filterwarnings("ignore")
+    sides = []
+    for bare in (False, True):
+        f = _muxpi_build(c, bare)
+        toks = []
+        for op in c["ops"]:
+            r = PI.apply_op(f, op)
+            cut = getattr(f, "cutoff", None)
+            toks.append(r + "{%s,%s}" % (show_bool(bool(f.is_fitted)), "none" if cut is None else str(int(cut))))
+        sides.append(" ".join(toks))
+    return sides[0] + " || " + sides[1]
+
+
+def _muxpi_oracle(c, out):
+    import predint as PI
+    mux, bare = [x.split(" ") for x in out.split(" || ")]
+    stored = c["ops"][0][2] is not None      # a horizon given at fit reaches the members
+    for j, (a, b) in enumerate(zip(mux, bare)):
+        op = c["ops"][j]
+        if a != b:
+            if op[0] == "upsi" and op[3] and not stored and op[2] is not None and a.startswith("E:value") and not b.startswith("E:"):
+                # the horizon is first given to the single-step call and the update refits: the multiplexer stores the
+                # horizon on itself only, so its member's refit finds none (a genuine difference, recorded as a finding)
+                return [("MultiplexForecaster.upsi:refuses-horizon-first-given-to-refitting-single-step",
+                         "call %d %s: multiplexer gave %s, the selected member on its own gives %s" % (j, PI.op_token(op), a, b))]
+            return [("MultiplexForecaster.%s:interval-call-differs-from-selected-member" % c["ops"][j][0],
+                     "call %d %s: multiplexer gave %s, the selected member on its own gives %s" % (j, PI.op_token(c["ops"][j]), a, b))]
+    return []
+
+
+def to_line(c):
+    return None if c.get("kind") == "muxpi" else _to_line_tree(c)
+
+
+def run_real(c):
+    return _muxpi_run(c) if c.get("kind") == "muxpi" else _run_real_tree(c)
+
+
+def oracle(c, real_out):
+    return _muxpi_oracle(c, real_out) if c.get("kind") == "muxpi" else _oracle_tree(c, real_out)
+
+
+def nontrivial(c, real_out):
+    return ("+I" in real_out) if c.get("kind") == "muxpi" else _nontrivial_tree(c, real_out)
+
+
+def features(c, real_out):
+    if c.get("kind") == "muxpi":
+        return ["root=M-intervals"] + ["op=" + o[0] for o in c["ops"]]
+    return _features_tree(c, real_out)
+
+
+def shrink(c):
+    if c.get("kind") == "muxpi":
+        ops = c["ops"]
+        for i in range(len(ops) - 1, 0, -1):
+            yield dict(c, ops=ops[:i] + ops[i + 1:])
+        return
+    yield from _shrink_tree(c)
